@@ -11,6 +11,7 @@ import (
 	"reflect"
 	"runtime"
 	"runtime/metrics"
+	"sort"
 	"strings"
 	"unsafe"
 )
@@ -216,92 +217,129 @@ func addressable(v reflect.Value) reflect.Value {
 	return c
 }
 
+// step is one element of the path to the first difference between two values.
+type step struct {
+	name string
+	t    reflect.Type // type of the value reached by this step
+}
+
 func deepEq(a, b reflect.Value) bool {
+	eq, _ := diff(a, b, nil)
+	return eq
+}
+
+// diff is a structural comparison returning the path to the first difference.
+func diff(a, b reflect.Value, path []step) (bool, []step) {
 	if a.IsValid() != b.IsValid() {
-		return false
+		return false, path
 	}
 	if !a.IsValid() {
-		return true
+		return true, nil
 	}
 	if a.Type() != b.Type() {
-		return false
+		return false, path
 	}
 	a, b = rw(a), rw(b)
+	leaf := func(eq bool) (bool, []step) {
+		if eq {
+			return true, nil
+		}
+		return false, path
+	}
 	switch a.Type() {
 	case bigIntT:
 		a, b = addressable(a), addressable(b)
-		return a.Addr().Interface().(*big.Int).Cmp(b.Addr().Interface().(*big.Int)) == 0
+		return leaf(a.Addr().Interface().(*big.Int).Cmp(b.Addr().Interface().(*big.Int)) == 0)
 	case bigFloatT:
 		a, b = addressable(a), addressable(b)
-		return a.Addr().Interface().(*big.Float).Cmp(b.Addr().Interface().(*big.Float)) == 0
+		return leaf(a.Addr().Interface().(*big.Float).Cmp(b.Addr().Interface().(*big.Float)) == 0)
+	}
+	sub := func(name string, x, y reflect.Value) (bool, []step) {
+		p := append(append([]step(nil), path...), step{name, x.Type()})
+		return diff(x, y, p)
 	}
 	switch a.Kind() {
 	case reflect.Ptr:
 		if a.IsNil() || b.IsNil() {
-			return a.IsNil() == b.IsNil()
+			return leaf(a.IsNil() == b.IsNil())
 		}
-		return deepEq(a.Elem(), b.Elem())
+		return diff(a.Elem(), b.Elem(), path)
 	case reflect.Interface:
 		if a.IsNil() || b.IsNil() {
-			return a.IsNil() == b.IsNil()
+			return leaf(a.IsNil() == b.IsNil())
 		}
-		return deepEq(addressable(a.Elem()), addressable(b.Elem()))
+		return diff(addressable(a.Elem()), addressable(b.Elem()), path)
 	case reflect.Struct:
 		for i := 0; i < a.NumField(); i++ {
-			if !deepEq(a.Field(i), b.Field(i)) {
-				return false
+			if eq, p := sub(a.Type().Field(i).Name, a.Field(i), b.Field(i)); !eq {
+				return false, p
 			}
 		}
-		return true
+		return true, nil
 	case reflect.Slice:
 		if a.Len() != b.Len() {
-			return false
+			return leaf(false)
 		}
 		for i := 0; i < a.Len(); i++ {
-			if !deepEq(a.Index(i), b.Index(i)) {
-				return false
+			if eq, p := sub("[i]", a.Index(i), b.Index(i)); !eq {
+				return false, p
 			}
 		}
-		return true
+		return true, nil
 	case reflect.Array:
 		for i := 0; i < a.Len(); i++ {
-			if !deepEq(a.Index(i), b.Index(i)) {
-				return false
+			if eq, p := sub("[i]", a.Index(i), b.Index(i)); !eq {
+				return false, p
 			}
 		}
-		return true
+		return true, nil
 	case reflect.Map:
 		if a.Len() != b.Len() {
-			return false
+			return leaf(false)
 		}
-		it := a.MapRange()
-		for it.Next() {
-			bv := b.MapIndex(it.Key())
-			if !bv.IsValid() || !deepEq(addressable(it.Value()), addressable(bv)) {
-				return false
+		keys := a.MapKeys()
+		sort.Slice(keys, func(i, j int) bool { return fmt.Sprint(keys[i]) < fmt.Sprint(keys[j]) })
+		for _, k := range keys {
+			bv := b.MapIndex(k)
+			if !bv.IsValid() {
+				return leaf(false)
+			}
+			if eq, p := sub("[k]", addressable(a.MapIndex(k)), addressable(bv)); !eq {
+				return false, p
 			}
 		}
-		return true
+		return true, nil
 	case reflect.Bool:
-		return a.Bool() == b.Bool()
+		return leaf(a.Bool() == b.Bool())
 	case reflect.Int, reflect.Int8, reflect.Int16, reflect.Int32, reflect.Int64:
-		return a.Int() == b.Int()
+		return leaf(a.Int() == b.Int())
 	case reflect.Uint, reflect.Uint8, reflect.Uint16, reflect.Uint32, reflect.Uint64, reflect.Uintptr:
-		return a.Uint() == b.Uint()
+		return leaf(a.Uint() == b.Uint())
 	case reflect.Float32, reflect.Float64:
-		return a.Float() == b.Float()
+		return leaf(a.Float() == b.Float())
 	case reflect.Complex64, reflect.Complex128:
-		return a.Complex() == b.Complex()
+		return leaf(a.Complex() == b.Complex())
 	case reflect.String:
-		return a.String() == b.String()
+		return leaf(a.String() == b.String())
 	default: // func, chan, unsafe pointer: not part of a value
-		return true
+		return true, nil
 	}
 }
 
 // typeName: "rlwe.Ciphertext", "structs.Vector[uint64]" (import paths removed).
-func typeName(ptr any) string {
-	s := reflect.TypeOf(ptr).Elem().String()
+func typeName(ptr any) string { return tname(reflect.TypeOf(ptr).Elem()) }
+
+// baseName is tname without type arguments ("structs.Map").
+func baseName(t reflect.Type) string {
+	s := tname(t)
+	if i := strings.Index(s, "["); i >= 0 {
+		s = s[:i]
+	}
+	return s
+}
+
+func tname(t reflect.Type) string {
+	s := t.String()
 	s = strings.ReplaceAll(s, "github.com/tuneinsight/lattigo/v6/", "")
 	// keep only the last path element of each qualified identifier
 	var out strings.Builder
